@@ -1,5 +1,5 @@
 -------------------------- MODULE TaskStoreTraceMC --------------------------
 EXTENDS TaskStoreTrace
-MCTaskOrder == <<"t1", "t2">>
-MCTplOrder == <<"p1", "p2">>
+MCTaskOrder == <<"t", "t2">>
+MCTplOrder == <<"p", "p2">>
 =============================================================================
